@@ -32,6 +32,9 @@ CONSTANTS Caps,        \* capacities of the Ethernet buffer explored by part A
           ReqCodes,    \* codes that may occur in a requested-parameter list
           MaxReq,      \* max length of a requested-parameter list
           DhcpCaps,    \* capacities of the buffer handed to EncodeDHCP4 (part B)
+          BigCode,     \* an option code whose value length ranges over BigLens (e.g. 43, vendor specific)
+          BigLens,     \* value length classes of BigCode: {0, 1, typical, 254, 255}; 255 is the largest legal length
+          IdClasses,   \* classes of the echo identifier of the echo send functions (part C), see EchoIdClasses
           NICs,        \* NIC configurations (names, concretised by the driver)
           Parts        \* subset of {"build", "dhcp", "send"}
 
@@ -68,10 +71,11 @@ OptLen(c) == CASE c = 1 -> 4 [] c = 3 -> 4 [] c = 6 -> 8 [] c = 12 -> 6 [] c = 1
                [] OTHER -> 2
 
 Supplied(s) == s \cup {MsgType}                       \* EncodeDHCP4 always adds the message type
-RECURSIVE OptBytesR(_)
-OptBytesR(S) == IF S = {} THEN 0 ELSE LET x == CHOOSE y \in S : TRUE IN 2 + OptLen(x) + OptBytesR(S \ {x})
-OptBytes(s) == OptBytesR(Supplied(s))
-DhcpLen(s)  == Max(300, 240 + OptBytes(s) + 1)        \* End option, padded to the BOOTP minimum
+VLen(c, bl) == IF c = BigCode THEN bl ELSE OptLen(c)  \* bl: value length of BigCode in this vector
+RECURSIVE OptBytesR(_, _)
+OptBytesR(S, bl) == IF S = {} THEN 0 ELSE LET x == CHOOSE y \in S : TRUE IN 2 + VLen(x, bl) + OptBytesR(S \ {x}, bl)
+OptBytes(s, bl) == OptBytesR(Supplied(s), bl)         \* every option exactly once: code, length octet, value
+DhcpLen(s, bl)  == Max(300, 240 + OptBytes(s, bl) + 1)   \* End option always present, padded to the BOOTP minimum
 
 \* mechanism: AppendOptions walks `order` followed by the fixed list <<1, 33, 3>>, deletes each
 \* option from the map once written, then ranges over the rest of the map (random order)
@@ -97,11 +101,11 @@ C03_DhcpReqOrder(s, order) == IsPrefix(ReqPrefix(s, order), MechPrefix(s, order)
 C03_DhcpMaskFirst(s, order) ==
     (1 \in s /\ 3 \in s /\ ~OrderConflict(order)) =>
         LET p == MechPrefix(s, order) IN 1 \in Range(p) /\ 3 \in Range(p) /\ Pos(p, 1) < Pos(p, 3)
-C03_DhcpPadded(s) == DhcpLen(s) >= 300 /\ DhcpLen(s) >= 240 + OptBytes(s) + 1
+C03_DhcpPadded(s, bl) == DhcpLen(s, bl) >= 300 /\ DhcpLen(s, bl) >= 240 + OptBytes(s, bl) + 1
 
-DhcpExp(s, order, c) ==
+DhcpExp(s, order, c, bl) ==
     IF c < 300 THEN [res |-> "nil", len |-> 0, prefix |-> <<>>, rest |-> {}, req |-> <<>>, conflict |-> FALSE]
-    ELSE [res |-> "ok", len |-> DhcpLen(s), prefix |-> MechPrefix(s, order), rest |-> MechRest(s, order),
+    ELSE [res |-> "ok", len |-> DhcpLen(s, bl), prefix |-> MechPrefix(s, order), rest |-> MechRest(s, order),
           req |-> ReqPrefix(s, order), conflict |-> OrderConflict(order)]
 
 DhcpSets == {s \in SUBSET DhcpCodes : Cardinality(s) <= MaxOpts}
@@ -110,15 +114,15 @@ SeqsUpTo(S, n) == IF n = 0 THEN {<<>>}
                   ELSE LET shorter == SeqsUpTo(S, n - 1) IN
                        shorter \cup {Append(q, x) : q \in {r \in shorter : Len(r) = n - 1}, x \in S}
 DhcpOrders == SeqsUpTo(ReqCodes, MaxReq)
-OptLens(s) == [i \in 1..Cardinality(Supplied(s)) |->
-                 LET c == SetToSeq(Supplied(s))[i] IN [c |-> c, n |-> OptLen(c)]]
+OptLens(s, bl) == [i \in 1..Cardinality(Supplied(s)) |->
+                 LET c == SetToSeq(Supplied(s))[i] IN [c |-> c, n |-> VLen(c, bl)]]
 
-DhcpVec(s, order, c) ==
+DhcpVec(s, order, c, bl) ==
     /\ phase = "idle" /\ "dhcp" \in Parts
-    /\ 240 + OptBytes(s) + 1 <= c \/ c < 300           \* "all option maps whose encoding fits"
+    /\ 240 + OptBytes(s, bl) + 1 <= c \/ c < 300       \* "all option maps whose encoding fits"
     /\ phase' = "vec"
-    /\ vec' = [part |-> "dhcp", cap |-> c, opts |-> SetToSeq(s), order |-> order, optlens |-> OptLens(s),
-               exp |-> DhcpExp(s, order, c)]
+    /\ vec' = [part |-> "dhcp", cap |-> c, opts |-> SetToSeq(s), order |-> order, optlens |-> OptLens(s, bl), big |-> bl,
+               exp |-> DhcpExp(s, order, c, bl)]
     /\ UNCHANGED <<cap, st, cur, res, hist>>
 
 -----------------------------------------------------------------------------
@@ -188,12 +192,12 @@ BRawIn(n) == /\ phase = "build" /\ Len(st) \in {2, 3} /\ Top.k \in {"ip4", "ip6"
 BDhcpIn(s, order) ==
     /\ phase = "build" /\ Len(st) = 3 /\ Top.k = "udp" /\ st[2].k = "ip4" /\ HeaderOnly(Top)
     /\ IF Rem(Top) < 300
-       THEN Stop("nil") /\ Step([a |-> "dhcpin", opts |-> SetToSeq(s), order |-> order, optlens |-> OptLens(s),
-                                 exp |-> DhcpExp(s, order, 0)])
-       ELSE /\ 240 + OptBytes(s) + 1 <= Rem(Top)
-            /\ Push(L("dhcp", "in", Top.off + Top.hl, 0, DhcpLen(s), -1, FALSE))
-            /\ Step([a |-> "dhcpin", opts |-> SetToSeq(s), order |-> order, optlens |-> OptLens(s),
-                     exp |-> DhcpExp(s, order, Rem(Top))])
+       THEN Stop("nil") /\ Step([a |-> "dhcpin", opts |-> SetToSeq(s), order |-> order, optlens |-> OptLens(s, 0),
+                                 exp |-> DhcpExp(s, order, 0, 0)])
+       ELSE /\ 240 + OptBytes(s, 0) + 1 <= Rem(Top)
+            /\ Push(L("dhcp", "in", Top.off + Top.hl, 0, DhcpLen(s, 0), -1, FALSE))
+            /\ Step([a |-> "dhcpin", opts |-> SetToSeq(s), order |-> order, optlens |-> OptLens(s, 0),
+                     exp |-> DhcpExp(s, order, Rem(Top), 0)])
     /\ UNCHANGED vec
 
 \* parent.AppendPayload(b) with a separately allocated payload b of n bytes
@@ -211,8 +215,10 @@ BAppendExt(kind, n) ==
        ELSE /\ st' = Append([st EXCEPT ![Len(st)].len = Top.hl + n, ![Len(st)].lf = LF(Top.k, n)],
                             L(kind, "ext", Top.off + Top.hl, 0, n, -1, TRUE))
             /\ cur' = Len(st) /\ res' = "ok" /\ UNCHANGED <<phase, cap>>
+            \* stable: the separately allocated result of EncodeDNSQuery / the NS / NA marshal belongs to the caller;
+            \* it must not change when the encoder is called again (the driver re-encodes decoys before using it)
             /\ Step([a |-> "appext", kind |-> kind, n |-> n, layer |-> Top.k,
-                     exp |-> [res |-> "ok", len |-> Top.hl + n, lf |-> LF(Top.k, n)]])
+                     exp |-> [res |-> "ok", len |-> Top.hl + n, lf |-> LF(Top.k, n), stable |-> TRUE]])
     /\ UNCHANGED vec
 
 \* Ether.AppendPayload(b) with a complete, separately built IPv4 packet of n bytes whose slice has
@@ -365,6 +371,15 @@ WellFormed(fr, ex) ==
 
 \* ------------------------------------------------------------------ Session
 EchoF(t, id, seq) == [type |-> t, id |-> id, seq |-> seq, data |-> "HELLO-NETFILTER"]
+\* Classes of the echo identifier.  The Internet checksum is the one's complement of the one's complement sum of
+\* the 16 bit words: with S the plain 32 bit sum, Fold(S) = S \div 65536 + S % 65536 may itself reach 65536 and
+\* must be folded again (RFC 1071 4.1 "end around carry").  NeedsSecondFold is the condition the driver searches
+\* an identifier for ("carryLE" / "carryBE": words accumulated little / big endian; "carryHdr": the IPv4 header of
+\* the frame instead, by choice of the destination address); "sweep" = every identifier 0..65535.
+Fold(S) == (S \div 65536) + (S % 65536)
+NeedsSecondFold(S) == Fold(S) >= 65536
+EchoIdClasses == {"rand", "carryLE", "carryBE", "carryHdr", "sweep"}
+ASSUME NeedsSecondFold(131071 + 65535) /\ NeedsSecondFold(131071) /\ ~NeedsSecondFold(131070) /\ Fold(Fold(131071 + 65535)) = 1
 Hop6(ip) == IF LinkLocal6(ip) THEN 255 ELSE 64          \* layer_icmp.go:471-474
 
 Echo4(src, dst, id, seq, okerr) ==
@@ -445,15 +460,18 @@ HostAddr4   == A("hostmac", "hostip4")
 RouterAddr4 == A("routermac", "routerip4")
 Dhcp(ethDst, ipDst, sport, dport, f) == Fr("udp4", "hostmac", ethDst, "hostip4", ipDst, 50, sport, dport, "dhcp4", f)
 
-Discover(ch, ci, named) ==
+\* name classes: none | short | long (60 characters: the option area passes 60 bytes, the message 300)
+Discover(ch, ci, nm) ==
     LET f == DhcpF("1", "1", ch, ci, "zero4", "arg.xid") @@
-             [opt55 |-> "35017903060f", opt12 |-> IF named THEN "arg.name" ELSE "absent"]
+             [opt55 |-> "35017903060f", opt12 |-> IF nm = "none" THEN "absent" ELSE "arg.name"]
         fr == Dhcp("routermac", "routerip4", 68, 67, f)
     IN [clean |-> TRUE, exp |-> Res(1, "nil", Relax(fr), {}), mech |-> Res(1, "nil", fr, {})]
 
 \* replies of the server to a client mac1 (broadcast flag set or not); forged decline / release
+\* cid: the client identifies itself by chaddr ("mac") or by a 60 byte client identifier option ("long")
 ServerReply(mt, bcast) ==
-    LET f == DhcpF("2", mt, "mac1", "any", IF mt = "6" THEN "zero4" ELSE "arg.yiaddr", "arg.xid") @@ [opt54 |-> "hostip4"]
+    LET f == DhcpF("2", mt, "mac1", "any", IF mt = "6" THEN "zero4" ELSE "arg.yiaddr", "arg.xid") @@
+             [opt54 |-> "hostip4", opt61 |-> IF mt = "6" THEN "arg.clientid" ELSE "absent"]   \* nakPacket echoes the client id
         fr == IF bcast THEN Dhcp("bcast", "bcast4", 67, 68, f) ELSE Dhcp("mac1", "arg.yiaddr", 67, 68, f)   \* renewing: unicast
     IN [clean |-> TRUE, exp |-> Res(1, "nil", Relax(fr), {}), mech |-> Res(1, "nil", fr, {})]
 
@@ -526,7 +544,7 @@ Call(c) ==
       [] c.f = "arp.AnnounceTo" -> Arp(c.mac, "1", A("hostmac", c.ip), A("bcast", c.ip), FALSE)
       [] c.f = "arp.RequestRaw" -> Arp(c.mac, "1", c.src, c.dst, FALSE)
       [] c.f = "arp.Reply" -> Arp(c.mac, "2", c.src, c.dst, FALSE)
-      [] c.f = "dhcp4.SendDiscoverPacket" -> Discover(c.ch, c.ci, c.named)
+      [] c.f = "dhcp4.SendDiscoverPacket" -> Discover(c.ch, c.ci, c.name)
       [] c.f = "dhcp4.ServerReply" -> ServerReply(c.mt, c.bcast)
       [] c.f = "dhcp4.ForgedDecline" -> ForgedDecline
       [] c.f = "dhcp4.ForgedRelease" -> ForgedRelease
@@ -544,8 +562,12 @@ Send(c, nic) ==
     /\ UNCHANGED <<cap, st, cur, res, hist>>
 
 \* one action per exported send function
-ICMP4SendEchoRequest(n) == \E s \in Src4, d \in Dst4 : Send([f |-> "ICMP4SendEchoRequest", src |-> s, dst |-> d], n)
-ICMP6SendEchoRequest(n) == \E s \in Src6, d \in Dst6 : Send([f |-> "ICMP6SendEchoRequest", src |-> s, dst |-> d], n)
+\* the identifier classes other than "rand" are combined with the canonical address pair only
+IdcOf(canonical) == IF canonical THEN IdClasses ELSE {"rand"}
+ICMP4SendEchoRequest(n) == \E s \in Src4, d \in Dst4 : \E idc \in IdcOf(s = HostAddr4 /\ d = A("mac1", "lan4")) :
+                               Send([f |-> "ICMP4SendEchoRequest", src |-> s, dst |-> d, idc |-> idc], n)
+ICMP6SendEchoRequest(n) == \E s \in Src6, d \in Dst6 : \E idc \in IdcOf(s = HostLLAAddr /\ d = "u:lla1") \ {"carryHdr"} :
+                               Send([f |-> "ICMP6SendEchoRequest", src |-> s, dst |-> d, idc |-> idc], n)
 ICMP6SendNeighborAdvertisement(n) ==
     \E s \in Src6, d \in Dst6, t \in Tgt6 : Send([f |-> "ICMP6SendNeighborAdvertisement", src |-> s, dst |-> d, tgt |-> t], n)
 ICMP6SendNeighbourSolicitation(n) ==
@@ -566,10 +588,11 @@ ArpRequestRaw(n) == \E m \in ArpDstMACs, s \in ArpSenders, t \in ArpTargets :
                         Send([f |-> "arp.RequestRaw", mac |-> m, src |-> s, dst |-> t], n)
 ArpReply(n)      == \E m \in ArpDstMACs, s \in ArpSenders, t \in ArpTargets :
                         Send([f |-> "arp.Reply", mac |-> m, src |-> s, dst |-> t], n)
-DhcpSendDiscover(n) == \E ch \in {"mac1", "mac2", "hostmac"}, ci \in {"zero4", "lan4", "hostip4"}, nm \in BOOLEAN :
-                        Send([f |-> "dhcp4.SendDiscoverPacket", ch |-> ch, ci |-> ci, named |-> nm], n)
-DhcpServerReply(n)  == \E mt \in {"2", "5", "6"}, b \in BOOLEAN : (b \/ mt = "5") /\ Send([f |-> "dhcp4.ServerReply", mt |-> mt, bcast |-> b], n)
-DhcpForged(n)       == \E k \in {"dhcp4.ForgedDecline", "dhcp4.ForgedRelease"} : Send([f |-> k], n)
+DhcpSendDiscover(n) == \E ch \in {"mac1", "mac2", "hostmac"}, ci \in {"zero4", "lan4", "hostip4"}, nm \in {"none", "short", "long"} :
+                        Send([f |-> "dhcp4.SendDiscoverPacket", ch |-> ch, ci |-> ci, name |-> nm], n)
+DhcpServerReply(n)  == \E mt \in {"2", "5", "6"}, b \in BOOLEAN, cid \in {"mac", "long"} :
+                        (b \/ mt = "5") /\ Send([f |-> "dhcp4.ServerReply", mt |-> mt, bcast |-> b, cid |-> cid], n)
+DhcpForged(n)       == \E k \in {"dhcp4.ForgedDecline", "dhcp4.ForgedRelease"}, cid \in {"mac", "long"} : Send([f |-> k, cid |-> cid], n)
 DnsQueries(n)       == \E k \in {"dns.SendMDNSQuery", "dns.SendLLMNRQuery", "dns.SendSSDPSearch", "dns.SendNBNSNodeStatus"} : Send([f |-> k], n)
 DnsSleepProxy(n)    == \E s \in {HostAddr4, A("mac1", "lan4"), HostLLAAddr}, d \in {A("mac1", "lan4"), A("bcast", "bcast4"), A("01:00:5e:00:00:fb", "224.0.0.251")} :
                         Send([f |-> "dns.SendSleepProxyResponse", src |-> s, dst |-> d], n)
@@ -604,7 +627,8 @@ C07_ExpSelfConsistent ==
 Init == /\ phase = "idle" /\ cap = 0 /\ st = <<>> /\ cur = 0 /\ res = "ok" /\ hist = <<>> /\ vec = Nil
 
 \* guards first: a terminal state must not pay for the enumeration of the whole class product
-DhcpNext == phase = "idle" /\ "dhcp" \in Parts /\ \E s \in DhcpSets, o \in DhcpOrders, c \in DhcpCaps : DhcpVec(s, o, c)
+DhcpNext == phase = "idle" /\ "dhcp" \in Parts /\ \E s \in DhcpSets, o \in DhcpOrders, c \in DhcpCaps :
+               \E bl \in (IF BigCode \in s THEN BigLens ELSE {0}) : DhcpVec(s, o, c, bl)
 
 Next == BuildNext \/ DhcpNext \/ SendNext
 Spec == Init /\ [][Next]_vars
@@ -612,7 +636,8 @@ Spec == Init /\ [][Next]_vars
 C03_Dhcp == (phase = "vec" /\ vec.part = "dhcp" /\ vec.exp.res = "ok") =>
               LET s == Range(vec.opts)  o == vec.order IN
               /\ C03_DhcpEachOnce(s, o) /\ C03_DhcpMsgType(s, o) /\ C03_DhcpReqOrder(s, o)
-              /\ C03_DhcpMaskFirst(s, o) /\ C03_DhcpPadded(s)
+              /\ C03_DhcpMaskFirst(s, o) /\ C03_DhcpPadded(s, vec.big)
+              /\ vec.exp.len = Max(300, 241 + OptBytes(s, vec.big))
 
 TypeOK == /\ phase \in {"idle", "build", "done", "stop", "vec"}
           /\ res \in {"ok", "nil", "ErrPayloadTooBig", "panic"}
